@@ -140,13 +140,35 @@ Deliver(p, m, as) ==
          res == IF rnd[p] \in {0, Done} \/ failed[p]
                 THEN [rnd |-> rnd[p], ok |-> okset[p], out |-> {}, ended |-> 0, culprits |-> {}]
                 ELSE Settle(p, rnd[p], okset[p], st2)
-     IN /\ store'  = [store EXCEPT ![p] = st2]
-        /\ got'    = [got EXCEPT ![p] = IF as = KindOf(m.type) THEN @ \cup {<<m.type, m.from>>} ELSE @]
+     IN /\ store'  = [store EXCEPT ![p] = IF failed[p] THEN @ ELSE st2]   \* an aborted party processes nothing further
+        /\ got'    = [got EXCEPT ![p] = IF as = KindOf(m.type) /\ ~failed[p] THEN @ \cup {<<m.type, m.from>>} ELSE @]
         /\ rnd'    = [rnd EXCEPT ![p] = res.rnd]
         /\ okset'  = [okset EXCEPT ![p] = res.ok]
         /\ sent'   = sent \cup res.out
         /\ ended'  = [ended EXCEPT ![p] = @ + res.ended]
         /\ failed' = [failed EXCEPT ![p] = @ \/ res.culprits # {}]
+
+(* One critical section of BaseUpdate (lock ... unlock): store the message,    *)
+(* run round.Update(), and advance AT MOST ONE round; the real code then       *)
+(* releases the mutex and calls itself again with the same message, i.e. runs  *)
+(* this action again.  Deliver above is the fix-point of PassDeliver, which is *)
+(* what a caller observes when nobody else calls the party in between;         *)
+(* concurrent callers interleave at this granularity (C09, EngineConc_Trace).  *)
+PassDeliver(p, m, as) ==
+  /\ m.to = p
+  /\ LET st2 == Put(store[p], m.type, m.from, as)
+         r   == rnd[p]
+         idle == r \in {0, Done} \/ failed[p]
+         ok2 == IF idle THEN okset[p] ELSE MarkOK(st2, p, r, okset[p])
+         go  == ~idle /\ CanProceed(p, ok2)
+         r2  == IF ~go THEN r ELSE IF r = NR THEN Done ELSE r + 1
+     IN /\ store'  = [store EXCEPT ![p] = st2]
+        /\ got'    = [got EXCEPT ![p] = IF as = KindOf(m.type) THEN @ \cup {<<m.type, m.from>>} ELSE @]
+        /\ rnd'    = [rnd EXCEPT ![p] = r2]
+        /\ okset'  = [okset EXCEPT ![p] = IF ~go THEN ok2 ELSE IF r2 = Done THEN {} ELSE Presets(p, r2)]
+        /\ sent'   = IF go /\ r2 # Done THEN sent \cup SendSet(p, r2) ELSE sent
+        /\ ended'  = [ended EXCEPT ![p] = @ + (IF go /\ r2 = NR THEN 1 ELSE 0)]
+        /\ UNCHANGED failed
 
 -----------------------------------------------------------------------------
 (* Derived notions used by the properties                                     *)
